@@ -44,6 +44,10 @@ CLAIMED = {
   "text": "Bounded symbolic model checking with Go map iteration order as a symbolic variable: the real ChangeAssets and the real refund payout are executed twice on equal states under independent arbitrary map orders and must agree on status, result text, balances and state root; Transactions.Less (the sort key of block execution) is shown asymmetric and transitive on all symbolic triples with distinct hashes.",
   "note": "Trusted: gosym and its models, z3. One genuine order dependence (sender among its own targets) is a listed known finding. Amounts are enumerated; whole-block execution, goroutine timing and process-local caches are outside.",
  },
+ "C06": {
+  "text": "Bounded exploration by the symbolic interpreter of the real transferBalance / ChangeAssets / ProcessFee and of EVM value transfers (CALL, CREATE, SELFDESTRUCT incl. to self, failing and succeeding frames) on a real AccountDB: the sum of the balances of all accounts involved never increases, decreases only for self-destruct-to-self, and no balance is negative, for every combination of the enumerated amount strings, aliasing patterns and frame endings.",
+  "note": "Trusted: gosym and its models. All inputs are enumerated choices (no symbolic amount could be decided: balances live in the state as minimal byte strings and are re-parsed through decimal/big.Float on every access), so this check is an exhaustive enumeration of a small finite space executed on the real code, not a solver argument over all amounts.",
+ },
 }
 PENDING = "check not built yet in this session (planned, see DESIGN.md section 5)"
 NA = {
